@@ -345,7 +345,7 @@ def query(port_name, cmd, verbose=True):
             n_retry_count = 0
             while len(response) == 0 and n_retry_count < 100:
                 # get new response to replace null response if necessary
-                response = port_name.readline()
+                response = port_name.readline().decode('ascii')
                 n_retry_count += 1
             if cmd.split(",")[0].strip().lower() not in ["a", "i", "mr", "pi", "qm", "qg", "v"]:
                 # Most queries return an "OK" after the data requested.
